@@ -163,7 +163,7 @@ def run_item(item):
                     viol("C08|error|%s|permuted-input" % type(e).__name__, "variables presented as %s raised %s: %s" % (list(perm), type(e).__name__, str(e)[:100]))
                     ok = False
                     continue
-                if out.shape != ref.shape or not torch.allclose(out, ref, rtol=1e-6, atol=1e-6):
+                if out.shape != ref.shape or not torch.allclose(out, ref, rtol=2e-5, atol=2e-6):
                     viol("C08|variable-order|%s" % arch.split("(")[0], "presenting the same data with variables ordered %s instead of %s changes the output (row 0: %s vs %s)" % (
                         list(perm), order0, out[0].tolist() if out.shape == ref.shape else tuple(out.shape), ref[0].tolist()))
                     ok = False
@@ -193,7 +193,7 @@ def run_item(item):
                 res["evals"] += 1
                 try:
                     o1 = model(pts(one, order0)).as_tensor.detach()
-                    if not torch.allclose(o1, ref[r:r + 1], rtol=1e-6, atol=1e-6):
+                    if not torch.allclose(o1, ref[r:r + 1], rtol=2e-5, atol=2e-6):
                         viol("C08|row-dependence|%s" % arch.split("(")[0], "row %d evaluated alone gives %s, inside the batch of 6 it gives %s" % (r, o1.tolist(), ref[r:r + 1].tolist()))
                         ok = False
                         break
@@ -204,7 +204,7 @@ def run_item(item):
             perm_rows = torch.tensor([3, 0, 5, 1, 4, 2])
             try:
                 op = model(pts({v: coords[v][perm_rows] for v in order0}, order0)).as_tensor.detach()
-                if not torch.allclose(op, ref[perm_rows], rtol=1e-6, atol=1e-6):
+                if not torch.allclose(op, ref[perm_rows], rtol=2e-5, atol=2e-6):
                     viol("C08|row-permutation|%s" % arch.split("(")[0], "permuting the rows of the batch does not permute the outputs")
                     ok = False
             except Exception as e:
@@ -217,7 +217,7 @@ def run_item(item):
                 except Exception:
                     res["rejected"] += 1      # batch arrangement not accepted by this architecture
                     continue
-                if tuple(o2.shape[:-1]) != tuple(shape) or not torch.allclose(o2.reshape(6, -1), ref, rtol=1e-6, atol=1e-6):
+                if tuple(o2.shape[:-1]) != tuple(shape) or not torch.allclose(o2.reshape(6, -1), ref, rtol=2e-5, atol=2e-6):
                     viol("C08|batch-arrangement|%s" % arch.split("(")[0], "arranging the 6 rows as batch shape %s gives output shape %s / other values" % (shape, tuple(o2.shape)))
                     ok = False
             # (3) compositions
@@ -225,7 +225,7 @@ def run_item(item):
                 if arch.startswith("Sequential"):
                     m1, m2 = model.models[0], model.models[1]
                     exp = m2(m1(pts(coords, order0))).as_tensor.detach()
-                    if not torch.allclose(exp, ref, rtol=1e-6, atol=1e-6):
+                    if not torch.allclose(exp, ref, rtol=2e-5, atol=2e-6):
                         viol("C08|sequential-not-composition", "Sequential(m1, m2)(x) differs from m2(m1(x))")
                         ok = False
                 if arch.startswith("Parallel"):
@@ -235,7 +235,7 @@ def run_item(item):
                         parts.append(m(pts(coords, own)).as_tensor.detach())
                     exp = torch.cat(parts, -1)
                     names = [k for m in model.models for k in m.output_space.keys()]
-                    if list(model.output_space.keys()) != names or not torch.allclose(exp, ref, rtol=1e-6, atol=1e-6):
+                    if list(model.output_space.keys()) != names or not torch.allclose(exp, ref, rtol=2e-5, atol=2e-6):
                         viol("C08|parallel-not-join", "Parallel(m1, m2)(x) differs from the join of m_i evaluated on their own variables")
                         ok = False
                 if arch == "NormalizationLayer":
